@@ -131,3 +131,39 @@ def lossy_ops(v):
     so a formula that is supposed to be a pure float computation must not contain any (integer division of a nanosecond count
     before the conversion to seconds silently drops up to one unit)."""
     return [t for t in subterms(v) if isinstance(t, Term) and t.op in LOSSY_OPS]
+
+
+def scaled_absolutes(v, is_sample):
+    """Conditioning of difference quotients: for an output that is invariant under adding a constant to all samples (a difference
+    quotient), the samples must be subtracted BEFORE anything is scaled.  Returns the Mul/Div subterms that scale an absolute sample
+    value (x_new / dt - x_old / dt): algebraically the same number, but its rounding error grows with |x| / dt instead of with the
+    difference, i.e. it is unbounded relative to the result when the samples are large compared with their change."""
+    bad = []
+
+    def typ(x):
+        if isinstance(x, Sym):
+            return "abs" if is_sample(x.name) else "k"
+        if isinstance(x, Const) or isinstance(x, Lin):
+            return "k"
+        if not isinstance(x, Term):
+            return "k"
+        ts = [typ(a) for a in x.args]
+        if x.op == "Neg":
+            return ts[0]
+        if x.op in ("Add", "Sub") and len(ts) == 2:
+            a, b = ts
+            if a == "k" and b == "k":
+                return "k"
+            if a == "abs" and b == "abs":
+                return "diff" if x.op == "Sub" else "abs"
+            if "abs" in (a, b):
+                return "abs"
+            return "diff"
+        if x.op in ("Mul", "Div") and len(ts) == 2:
+            if "abs" in ts:
+                bad.append(x)
+                return "abs"
+            return "diff" if "diff" in ts else "k"
+        return "abs" if "abs" in ts else ("diff" if "diff" in ts else "k")
+    typ(v)
+    return bad
